@@ -231,7 +231,18 @@ func (t *Type) IsSimpleType() bool {
 
 func ParseType(vt reflect.Type, def string) (*Type, error) {
 	var i int
-	return doParseType(vt, def, &i, true)
+	ret, err := doParseType(vt, def, &i, true)
+	if err != nil {
+		return nil, err
+	}
+
+	/* the whole annotation must have been consumed */
+	if tk, et := readToken(def, &i, true); et != nil {
+		return nil, et
+	} else if tk != "" {
+		return nil, ESyntax(i-len(tk), def, "unexpected token after the type")
+	}
+	return ret, nil
 }
 
 // isKeyword reports whether tv is the keyword (one of the keywords) of tag
